@@ -140,7 +140,7 @@ EXTRA = {
     "C18": " The curve is also replayed with reference variances 1 and 2 (coefficients above 1, committees of c^2+1 members). Alternating histories (committee data appear, disappear, re-appear between updates). Committee members that disagree in sign, identical members and realistic energy offsets.",
     "C19": " The caller's default array is handed over as is after an earlier search; delete + re-insert is also exercised the way the library composes it (a rejected grand-canonical trial that deletes one particle and inserts another, both orders). Negative indices.",
     "C20": " The cell-changing ensembles also hold a user-defined constant-volume cell move W; the strict user objects are falsy and log truth-value tests. A delete-and-insert trial (zero particle balance) must be announced; the same object is serialized twice at the end (every user component is asked each time).",
-    "C09": " DefaultTable.tla (the table each driver builds from its default moves: order, names, exact weights 1/(N+1) and N/(N+1) in the constant-pressure drivers, trials per step) is built on the real drivers for every case.",
+    "C09": " SchedInd.tla: the contract for unbounded trials per step and minimum counts by an inductive invariant discharged with Apalache, tied to Sched.tla by a refinement check in TLC. DefaultTable.tla (the table each driver builds from its default moves: order, names, exact weights 1/(N+1) and N/(N+1) in the constant-pressure drivers, trials per step) is built on the real drivers for every case.",
     "C10": " Long generator streams through one operation object (bounds for all generator states); re-used operation objects (a returned displacement is a value; contracts hold later in a sequence). The default mask belongs to its operation; composites of per-atom parts and of deformations are sums.",
     "C17": " Operands of + and * must be left unchanged.",
 }
